@@ -34,11 +34,18 @@ Proof. exact (conj oblivious_trivia_p oblivious_multiline_trivia). Qed.
 Print Assumptions C08_trivia_state_independent.
 
 (* Every keyword of the grammar (all mnemonics, directives, `as from else`, encodings, registers, true/false -- the
-   translated tag list) is matched in every ASCII letter case, consuming exactly the keyword, with the same result. *)
+   translated tag list) is matched in every ASCII letter case, consuming exactly the keyword, with the same result,
+   whenever it ends at a word boundary (a keyword that starts with a letter is not followed by an identifier character). *)
 Theorem C08_tag_case : forall t, In t all_keyword_tags ->
-  forall a x st o, ci_eq a t -> tag_no_case t st (mkIn o (a ++ x)) = (st, Ok a (mkIn (o + blen a) x)).
+  forall a x st o, ci_eq a t -> boundary t x -> tag_no_case t st (mkIn o (a ++ x)) = (st, Ok a (mkIn (o + blen a) x)).
 Proof. exact keyword_case. Qed.
 Print Assumptions C08_tag_case.
+
+(* ... and as the beginning of a longer word it is not a keyword in any spelling (`rtsg`, `trueval`, `asciitable`) *)
+Theorem C08_keyword_word_boundary : forall t, In t all_keyword_tags ->
+  forall a x st o, ci_eq a t -> word_tag t && starts_ident x = true -> tag_no_case t st (mkIn o (a ++ x)) = (st, Err).
+Proof. exact keyword_word. Qed.
+Print Assumptions C08_keyword_word_boundary.
 
 (* ... and only in those spellings *)
 Theorem C08_tag_case_only : forall t st i st' a r, tag_no_case t st i = (st', Ok a r) -> ci_eq a t.
